@@ -1,6 +1,7 @@
 import Txtpp.Lemmas.LineEnding
 import Txtpp.Model.Fs
 import Txtpp.Lemmas.OutputConfTxtpp
+import Txtpp.Lemmas.ByteLines
 /-!
 # Property C12 — generated files use one line ending: that of the source's first line
 -/
@@ -57,6 +58,20 @@ theorem output_one_ending {W : Type} (Wd : World W) (hW : WorldCr Wd) (mode : Mo
     (first trailing : Bool) (w : W) (lines : List (List Char)) (hlines : ∀ l ∈ lines, Clean l)
     (out : List Char) (w' : W) (h : ppPass Wd mode le first trailing w lines true = .ok out w') : LEonly le out :=
   output_conf Wd hW mode le first trailing w lines hlines out w' h
+
+/-- the lines `BufRead::lines` hands to the preprocessor (split the bytes at 10, strip one trailing
+13, decode as UTF-8) are free of `\r` and `\n` whenever every byte 13 of the source is followed by
+byte 10 -/
+theorem source_lines_terminator_free (bytes : List UInt8) (h : crB bytes = true) :
+    ∀ l ∈ (decodeLines (byteLines bytes)).1, Clean l := source_lines_clean bytes h
+
+/-- end to end for one source given as bytes: CR only before LF in the source, in included files and
+in command output ⟹ every line terminator of the output is the ending sniffed from the first line -/
+theorem output_one_ending_of_bytes {W : Type} (Wd : World W) (hW : WorldCr Wd) (mode : Mode) (first trailing : Bool)
+    (w : W) (bytes : List UInt8) (hcr : crB bytes = true) (out : List Char) (w' : W)
+    (h : ppPass Wd mode (sniffLE bytes) first trailing w (decodeLines (byteLines bytes)).1 true = .ok out w') :
+    LEonly (sniffLE bytes) out :=
+  output_conf Wd hW mode (sniffLE bytes) first trailing w _ (source_lines_clean bytes hcr) out w' h
 
 /-- … and so does the content of every temp file (the argument lines after the first, joined) -/
 theorem temp_file_one_ending (le : List Char) (d : Directive) (hd : DirClean d) :
